@@ -56,6 +56,8 @@ class ValidateVariableNamesVisitor(Visitor.DefaultVisitor):
     def v_Function(self, func, ctx=None):
         ctx = self.Context(ctx)
         for arg in func.GetArguments():
+            if not arg.HasName():
+                continue
             ctx.Add(arg.GetName(), arg.GetLocation())
 
         with Errors.CompileExceptionToErrorHandler(
